@@ -28,7 +28,7 @@ theorem call_ok (lib : Placed p B) (fok : FnsOK p ck B dA fa fns) (f : Nat) (ih 
     -- world: every handler halts, or neither the return to the caller nor a defeat inside the callee ends in a halt
     (isDfn fns g = true → ∃ v, md = .stop dA v) →
     (isDfn fns g = true → HaltW p md ∨
-      ((flag = none → ∀ m', Keep p.w m m' (F - o) →
+      ((flag = none → ∀ m', Keep p.w m m' (F - o) → (∀ v, rv = some v → m'.readLE (F - (o + p.w)) p.w = v) →
           ¬ Halts (sphinx p) ⟨pc + (cCall (cxOf p ck B dA) fa Γ pc o g args).length, m'⟩) ∧
        (flag = some .defeat → ∀ st', (∃ a v, md = .stop a v ∧ st'.pc = v ∧ SInvD p md Γ env st'.mem F D o ra ∧
           KeepD p.w m st'.mem (md.kb F p.w)) → ¬ Halts (sphinx p) st'))) →
@@ -300,16 +300,17 @@ theorem call_ok (lib : Placed p B) (fok : FnsOK p ck B dA fa fns) (f : Nat) (ih 
                   subst hpc'
                   rw [hkb] at k34
                   obtain ⟨r6, k6, _⟩ := back m4 k34
-                  exact (r6.exec (hret hcw.2.1.symm _ k6)).2
+                  exact (r6.exec (hret hcw.2.1.symm _ k6 (fun v hv => by rw [← hcw.2.2] at hv; cases hv))).2
                 | retv v =>
                   simp only [Option.some.injEq, Prod.mk.injEq] at hcw
                   obtain ⟨pc', m4⟩ := st'
                   simp only [Post] at hp
-                  obtain ⟨hpc', k34, _⟩ := hp
+                  obtain ⟨hpc', k34, hv4⟩ := hp
                   subst hpc'
                   rw [hkb] at k34
-                  obtain ⟨r6, k6, _⟩ := back m4 k34
-                  exact (r6.exec (hret hcw.2.1.symm _ k6)).2
+                  obtain ⟨r6, k6, h6⟩ := back m4 k34
+                  exact (r6.exec (hret hcw.2.1.symm _ k6 (fun v' hv' => by
+                    rw [← hcw.2.2] at hv'; simp only [Option.some.injEq] at hv'; subst hv'; rw [h6]; exact hv4))).2
                 | defeat =>
                   simp only [hdfn, if_true, Option.some.injEq, Prod.mk.injEq] at hcw
                   exact hdef hcw.2.1.symm st' (convD hdfn st' (by rw [hdfn]; exact hp))
